@@ -397,10 +397,12 @@ fn infer_source_field(
     // if we have exactly one field (which is not ignored)
     if fields.len() == 1 && parsed_fields.data.fields.len() == 1 {
         // then it is the source field, unless it is taken for the backtrace field by the name
-        // of its type (explicitly marked `#[error(backtrace)]`, it is the source handing on its
-        // own backtrace) or was explicitly marked as non-source
+        // of its type (explicitly marked `#[error(backtrace)]`, a field of another type is the
+        // source handing on its own backtrace) or was explicitly marked as non-source
         let info = &parsed_fields.data.infos[0].info;
-        return ((parsed_fields.backtrace.is_none() || info.backtrace == Some(true))
+        let hands_on_backtrace = info.backtrace == Some(true)
+            && !is_type_path_ends_with_segment(&fields[0].ty, "Backtrace");
+        return ((parsed_fields.backtrace.is_none() || hands_on_backtrace)
             && info.source != Some(false))
         .then_some(0);
     }
